@@ -87,6 +87,64 @@ pub fn base_streams(seed: u64, count: usize) -> Vec<Base> {
     v
 }
 
+/// A frame of `base` that is valid in every respect (CRC-8 and CRC-16 recomputed) except that its
+/// coded frame/sample number may be replaced by an arbitrary UTF-8-like code of 1..=7 bytes
+/// (`recode`), the blocking-strategy bit is sometimes flipped and - one time in three - the
+/// block-size / sample-rate / channel / sample-size codes are arbitrary.
+pub fn craft_frame(base: &Base, fi: usize, recode: bool, rng: &mut Rng) -> Vec<u8> {
+            let (o, l) = base.frames[fi];
+            let (hl, nl) = base.hdr[fi];
+            let mut fr: Vec<u8> = base.bytes[o..o + 4].to_vec();
+            if rng.chance(1, 2) {
+                fr[1] ^= 1;
+            }
+            // one crafted frame in three also gets arbitrary block-size / sample-rate /
+            // channel / sample-size codes (reserved ones included); the optional
+            // trailing fields are kept as they were, the CRC-8 is recomputed
+            if rng.chance(1, 3) {
+                match rng.usize_below(4) {
+                    0 => fr[2] = (fr[2] & 0x0F) | ((rng.usize_below(16) as u8) << 4),
+                    1 => fr[2] = (fr[2] & 0xF0) | rng.usize_below(16) as u8,
+                    2 => fr[3] = (fr[3] & 0x0F) | ((rng.usize_below(16) as u8) << 4),
+                    _ => fr[3] = (fr[3] & 0xF1) | ((rng.usize_below(8) as u8) << 1),
+                }
+                if rng.chance(1, 8) {
+                    fr[2] &= 0x0F; // the reserved block-size code 0000
+                }
+            }
+            if recode {
+                let len = 1 + rng.usize_below(7);
+                let payload: u64 = match rng.usize_below(5) {
+                    0 => u64::MAX,
+                    1 => 0,
+                    2 => 1u64 << rng.usize_below(37),
+                    3 => (1u64 << rng.usize_below(37)).wrapping_sub(1),
+                    _ => rng.next_u64(),
+                };
+                if len == 1 {
+                    fr.push((payload & 0x7F) as u8);
+                } else {
+                    let lead_bits = 7 - len; // payload bits in the lead byte
+                    let total_bits = lead_bits + 6 * (len - 1);
+                    let v = if total_bits >= 64 { payload } else { payload & ((1u64 << total_bits) - 1) };
+                    let lead_mask: u8 = (0xFFu16 << (8 - len)) as u8;
+                    fr.push(lead_mask | ((v >> (6 * (len - 1))) as u8 & ((1u16 << lead_bits) as u8).wrapping_sub(1)));
+                    for k in (0..len - 1).rev() {
+                        fr.push(0x80 | ((v >> (6 * k)) as u8 & 0x3F));
+                    }
+                }
+            } else {
+                fr.extend_from_slice(&base.bytes[o + 4..o + 4 + nl]);
+            }
+            // optional block-size / sample-rate bytes of the original header
+            fr.extend_from_slice(&base.bytes[o + 4 + nl..o + hl - 1]);
+            fr.push(refdec::crc8(&fr));
+            fr.extend_from_slice(&base.bytes[o + hl..o + l - 2]);
+            let c16 = refdec::crc16(&fr);
+            fr.extend_from_slice(&c16.to_be_bytes());
+    fr
+}
+
 #[derive(Debug, PartialEq, Eq)]
 pub enum Parsed {
     Err,
@@ -281,7 +339,33 @@ pub fn run_c16(ctx: &Ctx) -> i32 {
             let base = rng.pick(&b5);
             let mut data: Vec<u8>;
             let what;
-            match rng.usize_below(7) {
+            match rng.usize_below(8) {
+                7 => {
+                    // structured edits of STREAMINFO (which no frame CRC protects): whole fields
+                    // set to 0 / all-ones / swapped / random, one or several at once
+                    data = base.bytes.clone();
+                    // offsets inside the stream: 8 min block(2) 10 max block(2) 12 min frame(3)
+                    // 15 max frame(3) 18 rate/channels/bps/total(8) 26 md5(16)
+                    let fields: [(usize, usize); 6] = [(8, 2), (10, 2), (12, 3), (15, 3), (18, 8), (26, 16)];
+                    let both_blocks = rng.chance(1, 3);
+                    for _ in 0..1 + rng.usize_below(3) {
+                        let (o, l) = if both_blocks { (8, 4) } else { *rng.pick(&fields) };
+                        if data.len() < o + l {
+                            continue;
+                        }
+                        match rng.usize_below(4) {
+                            0 => data[o..o + l].fill(0),
+                            1 => data[o..o + l].fill(0xFF),
+                            2 => data[o..o + l].reverse(),
+                            _ => {
+                                for b in &mut data[o..o + l] {
+                                    *b = rng.next_u64() as u8;
+                                }
+                            }
+                        }
+                    }
+                    what = "STREAMINFO fields set to 0 / all-ones / reversed / random";
+                }
                 5 | 6 => {
                     // a frame that is valid in every respect (CRC-8 and CRC-16 recomputed) except
                     // that its coded frame/sample number is replaced by an arbitrary UTF-8-like
@@ -291,42 +375,7 @@ pub fn run_c16(ctx: &Ctx) -> i32 {
                     data = base.bytes[..base.audio_offset].to_vec();
                     let nfr = 1 + rng.usize_below(base.frames.len());
                     for fi in 0..nfr {
-                        let (o, l) = base.frames[fi];
-                        let (hl, nl) = base.hdr[fi];
-                        let mut fr: Vec<u8> = base.bytes[o..o + 4].to_vec();
-                        if rng.chance(1, 2) {
-                            fr[1] ^= 1;
-                        }
-                        if fi + 1 == nfr || rng.chance(1, 3) {
-                            let len = 1 + rng.usize_below(7);
-                            let payload: u64 = match rng.usize_below(5) {
-                                0 => u64::MAX,
-                                1 => 0,
-                                2 => 1u64 << rng.usize_below(37),
-                                3 => (1u64 << rng.usize_below(37)).wrapping_sub(1),
-                                _ => rng.next_u64(),
-                            };
-                            if len == 1 {
-                                fr.push((payload & 0x7F) as u8);
-                            } else {
-                                let lead_bits = 7 - len; // payload bits in the lead byte
-                                let total_bits = lead_bits + 6 * (len - 1);
-                                let v = if total_bits >= 64 { payload } else { payload & ((1u64 << total_bits) - 1) };
-                                let lead_mask: u8 = (0xFFu16 << (8 - len)) as u8;
-                                fr.push(lead_mask | ((v >> (6 * (len - 1))) as u8 & ((1u16 << lead_bits) as u8).wrapping_sub(1)));
-                                for k in (0..len - 1).rev() {
-                                    fr.push(0x80 | ((v >> (6 * k)) as u8 & 0x3F));
-                                }
-                            }
-                        } else {
-                            fr.extend_from_slice(&base.bytes[o + 4..o + 4 + nl]);
-                        }
-                        // optional block-size / sample-rate bytes of the original header
-                        fr.extend_from_slice(&base.bytes[o + 4 + nl..o + hl - 1]);
-                        fr.push(refdec::crc8(&fr));
-                        fr.extend_from_slice(&base.bytes[o + hl..o + l - 2]);
-                        let c16 = refdec::crc16(&fr);
-                        fr.extend_from_slice(&c16.to_be_bytes());
+                        let fr = craft_frame(base, fi, fi + 1 == nfr || rng.chance(1, 3), &mut rng);
                         data.extend_from_slice(&fr);
                     }
                     what = "valid frames with a re-coded frame number (1..7-byte code, CRCs recomputed)";
